@@ -305,6 +305,33 @@ def sequence_block(block):
                 d = o.to_dict()
                 d['name'] += f"/p{path.idx}"
                 obs.append(d)
+
+        # three calls: g2, then g1, then g2 again -- a getter that remembers its own last argument but shares the state with
+        # the others is only exposed by an intervening call
+        eng3 = sx.Engine(max_paths=128)
+
+        def run3():
+            cp = CPStub(faults=False)
+            A.CP = cp
+            spec = _spec(eng3, cu._PRESSURE_UNITS)
+            ads = A.Adsorbate('x', backend_name='X')
+            Ta, Tb, Tc = eng3.real('Ta', positive=True), eng3.real('Tb', positive=True), eng3.real('Tc', positive=True)
+            x_ = {'replay': {'kind': 'getter.sequence', 'g1': g1, 'g2': g2, 'third': True}}
+            try:
+                getattr(ads, g2)(Ta)
+                getattr(ads, g1)(Tb)
+                r3 = getattr(ads, g2)(Tc)
+            except (sx.Unsupported, sx._Infeasible):
+                raise
+            except Exception as exc:
+                eng3.prove(f"{base}/history.independent_of_two_previous_calls/after:{g2}+{g1}", False, extra=dict(x_, observed=type(exc).__name__))
+                return
+            eng3.prove(f"{base}/history.independent_of_two_previous_calls/after:{g2}+{g1}", sx.eq(r3, spec[g2][1](Tc)), extra=x_)
+        for path in eng3.explore(run3):
+            for o in path.obligations:
+                d = o.to_dict()
+                d['name'] += f"/p{path.idx}"
+                obs.append(d)
     return obs
 
 
